@@ -20,6 +20,7 @@ type VariantInfo struct {
 	Name     string
 	Class    string
 	Stem     string // diagnostic stem wire prints for a bad variant
+	Stems    []string // further error classes gen names for this variant (independent errors of one injector)
 	BadSet   bool   // has a malformed top-level set that no injector uses (gen ok, check must fail)
 	CheckGap bool   // rejected only by gen's post-solve checks (error/cleanup/value visibility)
 	UsesLib  bool
@@ -56,6 +57,8 @@ var Variants = []VariantInfo{
 	{Name: "bad_multival", Class: ClassBad, Stem: "is not a provider or a provider set"},
 	// an injector PARAMETER of provider-set type, named like a package-level set variable
 	{Name: "bad_paramset", Class: ClassBad, Stem: "is not a provider or a provider set"},
+	// ONE injector hitting two independent errors: an ill-formed set variable it includes and a provider with an illegal signature
+	{Name: "bad_two_errors", Class: ClassBad, Stem: "multiple bindings", Stems: []string{"wrong signature for provider"}},
 	{Name: "typeerr", Class: ClassTypeErr},
 }
 
@@ -533,6 +536,33 @@ import "github.com/google/wire"
 
 func InitBar() {RES} {
 	wire.Build(ProvideFoo{N}, ProvideBar)
+	{RET}
+}
+`),
+		}
+	case "bad_two_errors":
+		return []world.File{
+			f("model.go", basicModel+`
+func ProvideFooB() Foo { return Foo{N: -1} }
+
+type Cache struct{}
+
+// ProvideCache also reports how many entries were warmed up: not a legal provider signature.
+func ProvideCache() (*Cache, int) { return &Cache{}, 0 }
+`),
+			f("sets.go", `package {P}
+
+import "github.com/google/wire"
+
+// BadSet provides Foo twice.
+var BadSet = wire.NewSet(ProvideFoo{N}, ProvideFooB)
+`),
+			f("wire.go", injectHeader+`package {P}
+
+import "github.com/google/wire"
+
+func InitBar() {RES} {
+	wire.Build(BadSet, ProvideCache, ProvideBar)
 	{RET}
 }
 `),
